@@ -327,6 +327,9 @@ class Env(object):
         if self.policy.requested_first:
             # A3: the action execution is reported as requested before it runs (what st2 does)
             self._update(task, route, events.ActionExecutionEvent(S.REQUESTED), ["action", S.REQUESTED])
+            again = [x for x in self.c.get_next_tasks() if x["id"] == task and x["route"] == route]
+            if again:
+                self.violation("reoffer-after-requested", "%s the action execution of %s was reported as requested, yet the task is offered again" % (self.prop, act.label()), task=task)
         self._update(task, route, events.ActionExecutionEvent(S.RUNNING), ["action", S.RUNNING])
         self.inflight.append(act)
         for m in self.monitors:
